@@ -279,7 +279,7 @@ class _EulerBernoulli(_GroupElem):
         P = np.zeros((self.Ne, 3, 3))
         for beam in beamStructure.beams:
             elems = self.Get_Elements_Tag(beam.name)
-            P[elems] = beam._Calc_P()
+            P[elems] = beam._Calc_P().T
 
         P_e_pg = FeArray.zeros(Ne, 1, dof_n * nPe, dof_n * nPe)
         N = P.shape[-1]
